@@ -235,7 +235,10 @@ Definition ex_b2 : list crow := [([1; 1; 1], [4; 4]); ([2; 0; 5], [9; 7])].
 Definition ex_bs : list pbatch := map (pbatch_of 0 ex_parts) [ex_b1; ex_b2].
 
 Example hypotheses_met : Forall (pbatch_ok 2 3) ex_bs /\ (0 < 3)%nat /\ (forall v, sqq v = sqq v).
-Proof. split; [repeat constructor; apply pbatch_of_ok|split; [repeat constructor|reflexivity]]. Qed.
+Proof.
+  split; [|split; [repeat constructor|reflexivity]].
+  unfold ex_bs. cbn [map]. apply Forall_cons; [apply pbatch_of_ok|apply Forall_cons; [apply pbatch_of_ok|apply Forall_nil]].
+Qed.
 
 Definition cells_of (m : pmem) : list Q :=
   map (fun c => this (m c)) [CCnt 0 0; CCnt 0 1; CCnt 1 1; CCnt 1 2; CSum 0 0 0; CSum 2 1 1; CSq 1 0 1; CSq 2 1 2; CSum 0 1 0].
@@ -255,7 +258,11 @@ Proof. vm_compute. split; reflexivity. Qed.
 (* template build: 2 batches, 2 samples, 3 classes *)
 Definition ex_tbs : list tbatch := map (tbatch_of 0 ex_parts) [[([1; 2], [4]); ([3; 5], [1]); ([2; 2], [4])]; [([7; 1], [9]); ([4; 4], [7])]].
 Example template_hypotheses_met : Forall (tbatch_ok 2 3 idq) ex_tbs.
-Proof. repeat constructor; try (intros t _; apply lutz_range). Qed.
+Proof.
+  assert (H : forall rows, tbatch_ok 2 3 idq (tbatch_of 0 ex_parts rows))
+    by (intros rows; split; [intros t _; apply lutz_range|reflexivity]).
+  unfold ex_tbs. cbn [map]. apply Forall_cons; [apply H|apply Forall_cons; [apply H|apply Forall_nil]].
+Qed.
 Example template_choice_lists_agree :
   map (fun cs => map (fun c => this (tfinal 2 3 cs ex_tbs c)) [TCnt 0; TCnt 1; TCnt 2; TExi 0 0; TExi 0 1; TExxi 0 0 1; TExxi 0 1 1; TExxi 2 0 0])
       [[false; false]; [false; true]; [true; false]; [true; true]]
@@ -267,7 +274,7 @@ Proof. vm_compute. reflexivity. Qed.
 Definition ex_k1 : prange pcell := k1_prange 3 2 idq sqq (pbatch_of 0 ex_parts ex_b1).
 Definition ex_sched : list (ustep pcell) := alternate (usteps pcell ex_k1 2) (usteps pcell ex_k1 0) ++ usteps pcell ex_k1 1.
 Example schedule_instance :
-  length ex_sched = 64%nat
+  length ex_sched = 70%nat
   /\ map (fun c => this (urun pcell pcell_eqb (ustart pcell (fun _ => Q2Qc 0) (fun _ => Q2Qc 0)) ex_sched (Mem c))) [CCnt 0 0; CSum 2 1 1; CSq 1 0 1]
      = map (fun c => this (core1 3 2 idq sqq (pbatch_of 0 ex_parts ex_b1) (fun _ => Q2Qc 0) c)) [CCnt 0 0; CSum 2 1 1; CSq 1 0 1].
 Proof. vm_compute. split; reflexivity. Qed.
